@@ -906,6 +906,15 @@ def keeps_unspecified(S, R, v):
     return True
 
 
+def place3(j, z, x, y):
+    """[z, x, y], [x, z, y] or [x, y, z] for j = 0, 1, 2 (an unconvertible member before / inside / after the window)."""
+    if j == 0:
+        return [z, x, y]
+    if j == 1:
+        return [x, z, y]
+    return [x, y, z]
+
+
 def mkdictlist(j, x, z):
     """[x, z] if j == 0 else [z, x]  (places an unconvertible member before / after the window)."""
     if j == 0:
@@ -948,7 +957,7 @@ ZOO_HOSTILE = (
 
 ZOO_HOSTILE_Q = (Decimal("1.5"), (1, 2), {1, 2}, bytearray(b"ab"), StrSub("ab"), IntSub(3), ListSub([1]),
                  DictSub({"a": 1}), UUID("6ba7b810-9dad-11d1-80b4-00c04fd430c8"), UUID(int=0), {(1, 2): 0},
-                 Opaque(), float("inf"), float("nan"), 10 ** 400)
+                 Opaque(), float("inf"), float("nan"), 10 ** 400, {1: "x", "1": "y"}, {None: 1, "a": 2, (1,): 3})
 
 
 def _count_nodes(val):
@@ -1404,6 +1413,18 @@ _SINGLETONS = (
 )
 
 
+_PRISTINE = [(obj, {k: (dict(v) if isinstance(v, dict) else v) for k, v in obj.__dict__.items()}) for _n, obj in _SINGLETONS]
+
+
+def reset_singletons():
+    """Put d42's module-level visitor objects back into their import-time state.  CrossHair re-executes the harness
+    once per path inside one process; state that a (mutated) library leaks into these objects would otherwise make
+    paths irreproducible (NotDeterministic) instead of yielding a clean counterexample."""
+    for obj, snap in _PRISTINE:
+        obj.__dict__.clear()
+        obj.__dict__.update({k: (dict(v) if isinstance(v, dict) else v) for k, v in snap.items()})
+
+
 def deep_fp(x, depth=0):
     """Structural fingerprint with identity of leaves: equal before/after <=> nothing reachable was mutated."""
     if depth > 12:
@@ -1604,15 +1625,13 @@ class hash_orders:
         self.saved = REGEX_GEN._alphabet["letters"]
         REGEX_GEN._alphabet["letters"] = SMALL_LETTERS
         if _hash_order is not None:
-            _hash_order.ORDER[:] = self.order
-            _hash_order.POS[0] = 0
-            _hash_order.ACTIVE[0] = True
+            _hash_order.activate(self.order)
         return self
 
     def __exit__(self, *exc):
         REGEX_GEN._alphabet["letters"] = self.saved
         if _hash_order is not None:
-            _hash_order.ACTIVE[0] = False
+            _hash_order.deactivate()
         return False
 
 
